@@ -11,8 +11,10 @@ aw.native_witnesses = ["c19_wit_one_record_per_response_in_the_file"]
 wm = KaniUnit("c19_write_mode_wit", APP, modules=[dict(file=APP + "/src/app/compass/response/write_mode.rs", src="c19_write_mode_wit.rs")], harnesses=[])
 wm.native_witnesses = ["c19_wit_header_once_and_appending_runs_keep_earlier_records"]
 sk = VerusUnit("c19_sink", "c19_sink", rlimit=30, paired_kani=(aw, []))
-UNITS = [fm, sk, wit, aw, wm]
-EXPLANATION = ("TWO mechanisms of C19, not the file contents under every schedule. (1) 'format the whole row, then one writeln while holding the file lock' (Verus, verbatim ResponseSink::write_response, every sink incl. Combined at any nesting, "
+wv = VerusUnit("c19_write_mode", "c19_write_mode", rlimit=30, paired_kani=(wm, []))
+UNITS = [fm, sk, wv, wit, aw, wm]
+EXPLANATION = ("THREE mechanisms of C19, not the file contents under every schedule. (3) 'header written once when the file is created' (Verus, verbatim WriteMode::open_file, write_header, open_append over a ghost file system): append mode writes the "
+               "header only when it CREATES the file and leaves an existing file -- its header and every record of earlier runs -- exactly as it is; overwrite mode starts the file again with its header; error mode refuses an existing file and leaves it untouched; no other file is touched. (1) 'format the whole row, then one writeln while holding the file lock' (Verus, verbatim ResponseSink::write_response, every sink incl. Combined at any nesting, "
                "a ghost log threaded through the function): a successful call writes, per File sink and in order, exactly ONE record = the whole formatted row + newline, as ONE write through a guard of THAT file's lock taken during the call; nothing written earlier is touched; "
                "a sink of kind None writes nothing; ResponseOutputPolicy::build (verbatim, recursion through Combined) establishes the data invariant write_response relies on (a flush rate <= 0 is refused: no division by zero in a worker) and a sink of the policy's shape; lemma: one complete record per File sink, none duplicated or truncated -- with std's Mutex (mutual exclusion) and append-mode writes ASSUMED this is 'no record is interleaved with another worker's'. "
                "(2) 'writing a response never removes or replaces information (such as a search error) in the response handed back to the caller'. Decided (Verus, verbatim ResponseOutputFormat::format_response, "
@@ -20,5 +22,5 @@ EXPLANATION = ("TWO mechanisms of C19, not the file contents under every schedul
                "not be filled); the JSON formats do not touch the response. The pinned code replaced the search error of a failed query by the CSV messages (found by the witness, fixed in /repo a75a949). A native witness runs batches through the real CompassApp::run with newline-delimited JSON file output (parallelism 1..3, both persistence policies): one parseable record per response in the file, input-rejected queries included (those were missing on the pinned code: fixed)")
 NOT_DECIDED = ("the file contents themselves under every schedule: the step from 'one whole record per write_response call, written through one guard' to 'the file holds exactly one uninterleaved record per response' rests on the ASSUMED "
                "semantics of std::sync::Mutex and of an append-mode File (neither back end models threads or files) and on CompassApp::run calling write_response once per response (rayon closures: witness only); that a JSON "
-               "record parses back to the response; CSV column order; header and appending runs beyond the write-mode witness")
-ASSUMPTIONS = ["std::sync::Mutex: critical sections of one mutex exclude each other; what is written through a guard is appended contiguously while the guard is held; `writeln!(guard, \"{}\", row)` appends row + newline", "the flush counter does not reach 2^64", "the two row pipelines of the Csv arm only READ the response (checked textually: their only use of it is `v.apply_mapping(response)`)", "serde_json::Value as an abstract map of top-level fields; `response[key] = v` sets that one key"]
+               "record parses back to the response; CSV column order; the real file system behind the three std calls of write_mode.rs (assumed semantics; the write-mode witness runs them on real files)")
+ASSUMPTIONS = ["std::path::Path::exists, std::fs::write and OpenOptions::append/open as stated in the shims of unit c19_write_mode", "std::sync::Mutex: critical sections of one mutex exclude each other; what is written through a guard is appended contiguously while the guard is held; `writeln!(guard, \"{}\", row)` appends row + newline", "the flush counter does not reach 2^64", "the two row pipelines of the Csv arm only READ the response (checked textually: their only use of it is `v.apply_mapping(response)`)", "serde_json::Value as an abstract map of top-level fields; `response[key] = v` sets that one key"]
